@@ -218,8 +218,39 @@ def _p():
             if cell.label in _cellvals:
                 setter(_cellvals[cell.label])
         p.on('callCellValue', on_cell)
+
+        def on_var(name, setter):
+            # route 'nest': a defined name the host resolves by evaluating a formula ON THIS PARSER, in the middle of the evaluation
+            # that asked for it
+            if name in _nestvals:
+                setter(p.parse(_nestvals[name])['result'])
+        p.on('callVariable', on_var)
         _parser[0] = p
+        # a second parser of the same host, holding OTHER values under the same variable names (another sheet)
+        _decoy[0] = hotxlfp.Parser()
     return _parser[0]
+
+
+_nestvals = {}
+_decoy = [None]
+NEST_NAMES = ['na', 'nb', 'nc', 'nd', 'ne', 'nf']
+
+
+def nest_text(a):
+    """a formula that evaluates to exactly the number a (ints and floats that can be written without an exponent), or None"""
+    import decimal
+    if isinstance(a, bool) or not isinstance(a, (int, float)):
+        return None
+    if isinstance(a, int):
+        return str(a) if 0 <= a < 10 ** 15 else ('(0-%d)' % -a if -10 ** 15 < a < 0 else None)
+    if a != a or a in (float('inf'), float('-inf')) or not (a == 0 or 1e-15 < abs(a) < 1e15):
+        return None
+    t = format(decimal.Decimal(repr(abs(a))), 'f')
+    if '.' not in t:
+        t += '.0'
+    if float(t) != abs(a):
+        return None
+    return t if a >= 0 and str(a)[0] != '-' else '(0-%s)' % t
 
 
 def _pyval(a):
@@ -237,9 +268,14 @@ def _pyval(a):
 def _eval(formula, values):
     p = _p()
     _cellvals.clear()
-    for k, lab, v in zip(VARS, CELLS, values):
+    _nestvals.clear()
+    for k, lab, nn, v in zip(VARS, CELLS, NEST_NAMES, values):
         p.set_variable(k, _pyval(v))
+        _decoy[0].set_variable(k, 7.25 if not isinstance(v, float) else -v - 1)
         _cellvals[lab] = _pyval(v)
+        t = nest_text(v)
+        if t is not None:
+            _nestvals[nn] = t
     r = p.parse(formula)
     res = r['result']
     if r['error'] is not None:
@@ -270,6 +306,8 @@ def formula_of(name, args, route=None):
     """the call with its arguments taken from the variables xa.. (default), from the cells A1.. (route cell), or written over
     several lines with blanks, tabs, LF and CR LF between the tokens (route ws)"""
     names = CELLS if route == 'cell' else VARS
+    if route == 'nest':
+        names = [nn if nest_text(a) is not None else v for nn, v, a in zip(NEST_NAMES, VARS, args)]
     if route == 'ws':
         return '%s(\n %s )\r\n' % (name, ' ,\t'.join(names[:len(args)])) if args else ' %s( )\n' % name
     return '%s(%s)' % (name, ','.join(names[:len(args)]))
@@ -1375,6 +1413,9 @@ def cases(rng, ctx):
                 routed.append(dict(c, route='cell'))
             if i % 11 == 0:
                 routed.append(dict(c, route='ws'))
+            if i % 7 == 0 and len(c['args']) >= 1 and any(nest_text(a) is not None for a in c['args']):
+                # route nest: the numeric arguments are defined names the host resolves by evaluating their text on the same parser
+                routed.append(dict(c, route='nest'))
     return out + routed
 
 
